@@ -100,6 +100,7 @@ func runC06(e *Env) error {
 	r := e.Rep
 	rg := e.Rng
 	r.Rule = "a template rendered through `include … sandboxed` reaches a forbidden spy filter/function written in each of 24 syntactic positions through each of 12 routes (direct, nested includes with/without only/with, extends, parent(), import/from macros, local macro, two-level nesting, the top-level code of an imported library) — all 288 combinations, the sandboxed include tag itself rotating through 8 option forms — plus random policies and random programs using spy filters; " +
+		"every case is rendered again on engines SET UP differently (c06_setup.go: templates from RegisterString / a loader / ParseTemplate or NewTemplate of the same or of another engine + RegisterTemplate / compiled templates; only the sandboxed target, only what lies below it, or all of them; EnableSandbox before or after registration, DisableSandbox before / after / between renders, a permissive policy replaced by the strict one; cache off / development mode / auto-reload; Render / RenderTo / Load+Template.Render) and must give the base outcome; " +
 		"oracles (implementation-only): a forbidden callback is never invoked and the render fails with a security violation; the same program with the callback allowed renders; the including template outside the sandbox may call the same callback; plus the Lean pipeline (incl. trace of invocations); " +
 		"non-trivial = every case (each has a sandbox boundary and a forbidden callback); distinct by template set + policy"
 	ctx := map[string]any{"x": "val", "xs": []interface{}{"p", "q"}, "t": true, "f": false, "zero": 0, "nul": nil, "plainmap": map[string]interface{}{"k": 1}}
@@ -120,6 +121,17 @@ func runC06(e *Env) error {
 		"{% include 'box' sandboxed with " + allVars + " only %}", "{% include 'b' ~ 'ox' sandboxed %}"}
 	formTick := 0
 	incForm := incForms[0]
+	rotor := &c06SetupRotor{}
+	isAllowed := func(p *PolicySpec) func(string) bool {
+		ok := map[string]bool{}
+		for _, f := range p.Filters {
+			ok[f] = true
+		}
+		for _, f := range p.Functions {
+			ok[f] = true
+		}
+		return func(name string) bool { return ok[name] }
+	}
 	mk := func(tpls map[string]string, allowBad bool, outsideUse bool) *Case {
 		main := incForm
 		if outsideUse {
@@ -167,6 +179,16 @@ func runC06(e *Env) error {
 					return nil
 				}
 			}
+			// 1b. the same case on engines set up in other ways (who built the templates, which engine calls came
+			// before the render): the base outcome is the expected one
+			setups := rotor.sweep()
+			if im.Class == "security" && !forbiddenInvoked(im, 0) {
+				for _, s := range setups {
+					if c06CheckSetup(e, c, s, im, isAllowed(c.Policy)) {
+						return nil
+					}
+				}
+			}
 			// 2. allowed: the same program renders and the callback runs
 			c2 := mk(tpls, true, false)
 			im2, _, _, err := compareCase(e, c2, "render-model-c06", "correspondence on the allowed variant")
@@ -180,6 +202,15 @@ func runC06(e *Env) error {
 					return nil
 				}
 			}
+			if im2.Class == "" {
+				for i, s := range setups {
+					if i%3 == formTick%3 {
+						if c06CheckSetup(e, c2, s, im2, isAllowed(c2.Policy)) {
+							return nil
+						}
+					}
+				}
+			}
 			// 3. outside the sandbox the includer may use the callback; inside it stays forbidden
 			if rg.Intn(4) == 0 {
 				c3 := mk(tpls, false, true)
@@ -188,6 +219,11 @@ func runC06(e *Env) error {
 					return err
 				}
 				r.Seen("outside:"+route+":"+pos.name, true)
+				if im3.Class == "security" && !forbiddenInvoked(im3, 2) {
+					if c06CheckSetup(e, c3, rotor.next(), im3, isAllowed(c3.Policy)) {
+						return nil
+					}
+				}
 				if forbiddenInvoked(im3, 2) || im3.Class != "security" || len(im3.Spies) < 2 {
 					if r.Violate(Violation{Key: "sandbox-boundary", What: fmt.Sprintf("outside use + sandboxed include (%s via %s): class %q, invocations %v", pos.name, route, im3.Class, im3.Spies),
 						Broken: "theorem C06_outside_unrestricted / C06_confinement (implementation-only oracle)", Replay: c3.replay(im3, Outcome{})}) {
@@ -353,6 +389,11 @@ func runC06(e *Env) error {
 			return err
 		}
 		r.Seen("rnd:"+tpls["box"]+fmt.Sprint(pol), true)
+		if im.Class != "panic" && im.Class != "timeout" {
+			if c06CheckSetup(e, c, rotor.next(), im, isAllowed(pol)) {
+				return nil
+			}
+		}
 		r.Hit("random-class:" + im.Class)
 		for _, ev := range im.Spies {
 			if !allowed[ev.Name] {
